@@ -157,9 +157,23 @@ def tr_semiring():
 TRANSLATORS = {"semiring": tr_semiring}
 
 
+def _discover():
+    """Additional translators live in tools/translators/<name>.py, each exposing
+    TRANSLATORS = {name: fn() -> {gen_file_name: text}} and using the helpers of this module."""
+    import importlib
+    d = os.path.join(os.path.dirname(os.path.abspath(__file__)), "translators")
+    sys.path.insert(0, os.path.dirname(os.path.abspath(__file__)))
+    for f in sorted(os.listdir(d)):
+        if f.endswith(".py") and f != "__init__.py":
+            m = importlib.import_module("translators." + f[:-3])
+            for k, fn in m.TRANSLATORS.items():
+                TRANSLATORS.setdefault(k, fn)
+
+
 def run(which=None):
     """Return (written files dict, errors dict translator->message)."""
     os.makedirs(GEN, exist_ok=True)
+    _discover()
     errors, changed = {}, []
     for name, fn in TRANSLATORS.items():
         if which and name not in which:
